@@ -9,6 +9,10 @@ coq/model/ImpB.v.
   python3 tools/gen_brain.py --ties     additionally compile coq/proofs/BrainTie.v block by block (in parallel) and print
                                         `tie <name>: OK | FAILED | SKIPPED` for every target
                                         (--only=a,b: these targets only; --keep: failing block files are left in /tmp)
+  python3 tools/gen_brain.py --ties --field   the same in FIELD MODE: the blocks are proved for every ordered field (OField)
+                                        with leaves closed up to the field laws; a second chance for a tie that a harmless
+                                        floating-point rewrite (operand order, x/t -> x*(1/t), mul_add, ..) broke in strict mode
+  python3 tools/gen_brain.py --ties --both    both modes in one run: lines `tie <name> [strict]: ..` and `tie <name> [field]: ..`
 
 A target whose body is outside the subset is skipped (`skipped <name>: <construct>` on stdout, its name in
 `brain_gen_skipped` in BrainGen.v), and so is a target that calls a skipped one.  Only an unparseable FILE STRUCTURE
@@ -1471,6 +1475,13 @@ class Fn:
             return a, "str"
         if ta == "f64" and m in ("abs", "is_finite", "is_infinite") and n == 0:
             return "(%s N %s)" % (m, a), ("f64" if m == "abs" else "bool")
+        if ta == "f64" and m == "mul_add" and n == 2:
+            # a.mul_add(b, c) = a*b + c with one rounding: Num.fma (equal to a*b + c in an ordered field: OField.of_fma)
+            b, tb = self.ex(args[0], env, "f64")
+            c, tc3 = self.ex(args[1], env, "f64")
+            if tb != "f64" or tc3 != "f64":
+                self.refuse("mul_add(%s, %s)" % (show(tb), show(tc3)))
+            return "(fma N %s %s %s)" % (a, b, c), "f64"
         if ta == "usize" and m in ("saturating_sub", "min", "max") and n == 1:
             b, tb = self.ex(args[0], env, "usize")
             if tb != "usize":
@@ -2132,21 +2143,55 @@ def translate():
 
 
 # ------------------------------------------------------------------ which ties of BrainTie.v still hold
-def check_ties(world):
-    """compile BrainTie.v block by block: common text + the block of one function + the blocks it needs"""
-    text = re.sub(r"(?m)^Print Assumptions \w+\.\n", "", open(TIE, encoding="utf-8").read())
-    blocks, common, pos = {}, [], 0
-    for m in re.finditer(r"\(\* BEGIN TIE (\w+)(?: \(needs: ([\w ]*)\))? \*\)\n(.*?)\(\* END TIE \1 \*\)\n", text, re.S):
-        common.append(text[pos:m.start()])
-        common.append("@@%s@@" % m.group(1))
-        blocks[m.group(1)] = ((m.group(2) or "").split(), m.group(3))
-        pos = m.end()
-    common.append(text[pos:])
+FIELD_CONTEXT = "Context (OF : OField N). Add Field TieField : (of_field N OF)."
+FIELD_LEAF = "Ltac leaf := leaf_field."
 
-    def closure(n, acc):
+
+def field_mode(text):
+    """BrainTie.v as it is compiled by --ties --field: the ties are then proved for every ORDERED FIELD (an extra section
+    hypothesis OF : OField N) instead of every Num, and the leaves of the proofs may use the field laws.  Two marker
+    lines of the strict text are replaced; nothing else changes and the result is never written to the repository."""
+    lines = text.split("\n")
+    ctx = [i for i, l in enumerate(lines) if l.strip() == "(* FIELD-MODE-CONTEXT *)"]
+    leaf = [i for i, l in enumerate(lines) if l.strip() == "Ltac leaf := leaf_strict. (* FIELD-MODE-LEAF *)"]
+    if len(ctx) != 1 or len(leaf) != 1:
+        raise Structure("BrainTie.v: expected exactly one FIELD-MODE-CONTEXT line and one FIELD-MODE-LEAF line (found %d, %d)"
+                        % (len(ctx), len(leaf)))
+    ind_of = lambda l: l[:len(l) - len(l.lstrip())]
+    lines[ctx[0]] = ind_of(lines[ctx[0]]) + FIELD_CONTEXT
+    lines[leaf[0]] = ind_of(lines[leaf[0]]) + FIELD_LEAF
+    return "\n".join(lines)
+
+
+def check_ties(world):
+    """compile BrainTie.v block by block: common text + the block of one function + the blocks it needs.
+    --field: in field mode; --both: in both modes (lines `tie <name> [strict|field]: ..`)"""
+    strict_text = re.sub(r"(?m)^Print Assumptions \w+\.\n", "", open(TIE, encoding="utf-8").read())
+    both = "--both" in sys.argv[1:]
+    modes = ["strict", "field"] if both else (["field"] if "--field" in sys.argv[1:] else ["strict"])
+    texts = {}
+    for mode in modes:
+        try:
+            texts[mode] = field_mode(strict_text) if mode == "field" else strict_text
+        except Structure as e:
+            print("tie check: %s" % e)
+            return 1
+
+    def split(text):
+        blocks, common, pos = {}, [], 0
+        for m in re.finditer(r"\(\* BEGIN TIE (\w+)(?: \(needs: ([\w ]*)\))? \*\)\n(.*?)\(\* END TIE \1 \*\)\n", text, re.S):
+            common.append(text[pos:m.start()])
+            common.append("@@%s@@" % m.group(1))
+            blocks[m.group(1)] = ((m.group(2) or "").split(), m.group(3))
+            pos = m.end()
+        common.append(text[pos:])
+        return blocks, common
+    parts = {mode: split(texts[mode]) for mode in modes}
+
+    def closure(blocks, n, acc):
         for d in blocks[n][0]:
             if d in blocks and d not in acc:
-                closure(d, acc)
+                closure(blocks, d, acc)
         if n not in acc:
             acc.append(n)
         return acc
@@ -2159,26 +2204,29 @@ def check_ties(world):
     only = [a[7:].split(",") for a in sys.argv[1:] if a.startswith("--only=")]
     from concurrent.futures import ThreadPoolExecutor
     with tempfile.TemporaryDirectory() as tmp:
-        def one(target):
-            ty, name, g = target
+        def one(job):
+            mode, (ty, name, g) = job
+            blocks, common = parts[mode]
+            tag = "tie %s%s" % (g, " [%s]" % mode if both else "")
             if (ty, name) in world.skipped:
-                return "tie %s: SKIPPED (%s)" % (g, world.skipped[(ty, name)])
+                return "%s: SKIPPED (%s)" % (tag, world.skipped[(ty, name)])
             if g not in blocks:
-                return "tie %s: no block in BrainTie.v" % g
-            keep = closure(g, [])
+                return "%s: no block in BrainTie.v" % tag
+            keep = closure(blocks, g, [])
             body = "".join(c if not c.startswith("@@") else (blocks[c[2:-2]][1] if c[2:-2] in keep else "") for c in common)
-            path = os.path.join(tmp, "BrainTie_%s.v" % g)
+            stem = "BrainTie_%s%s" % (g, "_field" if mode == "field" else "")
+            path = os.path.join(tmp, stem + ".v")
             open(path, "w").write(body)
             r = run(["coqc", "-Q", COQ, "CE", "-w", "-notation-overridden", path], tmp)
             if r.returncode == 0:
-                return "tie %s: OK" % g
+                return "%s: OK" % tag
             msg = [l for l in r.stdout.splitlines() if l.strip() and not l.startswith("Closed under")]
             if "--keep" in sys.argv[1:]:
-                open("/tmp/BrainTie_%s.v" % g, "w").write(body)
-                open("/tmp/BrainTie_%s.log" % g, "w").write(r.stdout)
-            return "tie %s: FAILED (%s)" % (g, " | ".join(msg[-3:])[:300])
-        todo = [t for t in TARGETS if not only or t[2] in only[0]]
-        with ThreadPoolExecutor(max_workers=min(12, os.cpu_count() or 1)) as pool:
+                open("/tmp/%s.v" % stem, "w").write(body)
+                open("/tmp/%s.log" % stem, "w").write(r.stdout)
+            return "%s: FAILED (%s)" % (tag, " | ".join(msg[-3:])[:300])
+        todo = [(mode, t) for mode in modes for t in TARGETS if not only or t[2] in only[0]]
+        with ThreadPoolExecutor(max_workers=min(14, os.cpu_count() or 1)) as pool:
             results = list(pool.map(one, todo))
     for line in results:
         print(line)
